@@ -5,10 +5,10 @@ package props_race
 import (
 	"bytes"
 	"context"
-	"net"
 	"encoding/json"
 	"errors"
 	"fmt"
+	"net"
 	"sort"
 	"sync"
 	"testing"
